@@ -111,3 +111,457 @@ def gen_c01(rng, fs, i, cfg):
             _faulted(rng, op)
         return op
     return gen_c15(rng, fs, i, cfg)
+
+
+# ===========================================================================
+# helpers
+# ===========================================================================
+def coll_to_create(coll, form="iter", chunks=1):
+    """A create op body that stores exactly the model collection `coll`."""
+    names = list(coll.chromnames)
+    edges = []
+    b = coll.bins
+    for c in range(len(names)):
+        m = b["chrom"].values == c
+        edges.append([int(x) for x in b["start"].values[m]] + [int(b["end"].values[m][-1])])
+    px = coll.pixels
+    rec = {k: [v.item() if hasattr(v, "item") else v for v in px[k].tolist()] for k in px.columns}
+    return {
+        "op": "create", "layout": {"names": names, "edges": edges, "kind": "derived"},
+        "symmetric": coll.symmetric, "dtypes": {c: str(px[c].dtype) for c in coll.value_columns},
+        "form": form, "chunks": [rec], "arraychunk": None, "h5opts": None, "metadata": None,
+        "assembly": None, "bin_extra": None, "fault": None,
+    }
+
+
+def _ctx(cfg):
+    return cfg.setdefault("_ctx", {})
+
+
+def _same_layout_create(rng, cfg, layout, symmetric, colspec, maxpx, density=None):
+    op = gen.gen_create(rng, layout=layout, maxpx=maxpx, symmetric=symmetric, colspec=dict(colspec),
+                        density=density, simple=True)
+    # normalise to one sorted record list, then choose form and chunking afresh
+    cols = ["bin1_id", "bin2_id"] + list(op["dtypes"])
+    rows = sorted(zip(*[sum((ch[c] for ch in op["chunks"]), []) for c in cols]), key=lambda t: (t[0], t[1]))
+    rec = {c: [r[j] for r in rows] for j, c in enumerate(cols)}
+    op["form"] = rng.choice(["df", "iter", "iterdict"])
+    op["arraychunk"] = None
+    if op["form"] == "df":
+        op["chunks"] = [rec]
+    else:
+        sizes = gen.split_chunks(rng, len(rows))
+        lo = 0
+        op["chunks"] = []
+        for s in sizes:
+            op["chunks"].append(gen.slice_record(rec, lo, lo + s))
+            lo += s
+    return op
+
+
+# ===========================================================================
+# C07: merge histories
+# ===========================================================================
+def gen_c07(rng, fs, i, cfg):
+    ctx = _ctx(cfg)
+    if "layout" not in ctx:
+        ctx["layout"] = gen.gen_layout(rng, cfg.get("maxchroms", 3), cfg.get("maxbins", 6))
+        ctx["symmetric"] = rng.random() < 0.7
+        ctx["colspec"] = gen.gen_colspec(rng)
+        ctx["ninputs"] = rng.randint(1, 4)
+        ctx["big"] = rng.random() < 0.12
+        ctx["inputs"] = []
+        ctx["level1"] = []
+    lay, symm, colspec = ctx["layout"], ctx["symmetric"], ctx["colspec"]
+    if len(ctx["inputs"]) < ctx["ninputs"]:
+        k = len(ctx["inputs"])
+        spec = dict(colspec)
+        if rng.random() < 0.2 and spec["count"] == "int32":
+            spec["count"] = rng.choice(["int64", "int16"])
+        op = _same_layout_create(rng, cfg, lay, symm, spec, cfg.get("maxpx", 40),
+                                 density=rng.choice([None, None, "empty", "dense", "diag"]))
+        if ctx["big"] and spec["count"] == "int32":
+            for ch in op["chunks"]:
+                ch["count"] = [rng.randint(2**29, 2**30 + 2**29) for _ in ch["count"]]
+        r = rng.random()
+        if r < 0.08:
+            # an incompatible input: other layout or other storage mode
+            if rng.random() < 0.5:
+                op = _same_layout_create(rng, cfg, gen.gen_layout(rng, 3, 6), symm, spec, 20)
+            else:
+                op = _same_layout_create(rng, cfg, lay, not symm, spec, 20)
+        fid = rng.choice(["f0", "f1"])
+        path = "/in%d" % k if rng.random() < 0.8 else "/"
+        if path == "/" and fid in fs.files and fs.files[fid].coll is not None:
+            path = "/in%d" % k
+        op.update(file=fid, path=path, mode="a")
+        ctx["inputs"].append((fid, path))
+        return op
+    have0 = [(f, p) for f in ("f0", "f1") for p in cooler_paths(fs, f)]
+    have1 = [("f2", p) for p in cooler_paths(fs, "f2")]
+    if not have0:
+        return None
+    level2 = have1 and rng.random() < 0.45
+    pool = have0 + (have1 if level2 else [])
+    k = rng.randint(1, min(4, len(pool)))
+    ins = rng.sample(pool, k)
+    if level2 and not any(f == "f2" for f, _ in ins):
+        ins[0] = rng.choice(have1)
+    if rng.random() < 0.15:
+        ins.append(rng.choice(ins))  # the same input twice
+    rng.shuffle(ins)
+    fid = "f3" if level2 else "f2"
+    total = sum(len(fs.lookup(f, p).coll.pixels) for f, p in ins)
+    op = {"op": "merge", "file": fid, "path": rng.choice(["/", "/m%d" % i, "/m%d" % i, "/x/y%d" % i]),
+          "mode": "a", "inputs": [{"file": f, "path": p} for f, p in ins],
+          "mergebuf": rng.choice([1, 2, 3, 5, 8, max(1, total // 2), total + 1, 20_000_000]),
+          "columns": None, "agg": None, "fault": None}
+    extra = [c for c in colspec if c != "count"]
+    if extra and rng.random() < 0.6:
+        op["columns"] = ["count"] + extra if rng.random() < 0.7 else extra
+    if rng.random() < 0.15:
+        col = rng.choice(op["columns"] or ["count"])
+        op["agg"] = {col: rng.choice(["max", "min"])}
+    return op
+
+
+# ===========================================================================
+# C08: coarsen histories
+# ===========================================================================
+def gen_coarsen_op(rng, fs, src, i, prop="C08", allow_pool=True):
+    sf, sp = src
+    coll = fs.lookup(sf, sp).coll
+    nnz = len(coll.pixels)
+    same = rng.random() < 0.5
+    fid = sf if same else rng.choice([f for f in ("f0", "f1", "f2") if f != sf])
+    cli = rng.random() < 0.2
+    mode = "a"
+    if cli and not same and rng.random() < 0.5 and fid not in fs.files:
+        mode = "w"
+    op = {"op": "coarsen", "prop": prop, "src": {"file": sf, "path": sp, "slash": rng.random() < 0.7},
+          "file": fid, "path": rng.choice(["/c%d" % i, "/z/c%d" % i, "/c%d" % i]), "mode": mode,
+          "factor": rng.choice([2, 2, 3, 3, 4, 5, 6]),
+          "chunksize": rng.choice([1, 2, 3, 5, 10, max(1, nnz // 2), max(1, nnz), nnz + 1, 10_000_000]),
+          "nproc": rng.choice([1, 1, 2, 3, 4]) if allow_pool else 1, "columns": None, "agg": None,
+          "cli": cli, "fault": None}
+    if fid not in fs.files and rng.random() < 0.3:
+        op["path"] = "/"
+    extra = [c for c in coll.value_columns if c != "count"]
+    if extra and rng.random() < 0.6:
+        op["columns"] = ["count"] + extra
+        if rng.random() < 0.3:
+            op["agg"] = {extra[0]: rng.choice(["max", "min"])}
+    return op
+
+
+def gen_c08(rng, fs, i, cfg):
+    ctx = _ctx(cfg)
+    have = [(f, p) for f in sorted(fs.files) for p in cooler_paths(fs, f)]
+    nsrc = ctx.setdefault("nsrc", rng.randint(1, 2))
+    if len(ctx.setdefault("srcs", [])) < nsrc:
+        kind = rng.choice(["fixed", "fixed", "fixed-exact", "variable", "variable", "longlast", "onebin",
+                           "mixed-one", "fixed1"])
+        if ctx["srcs"] and rng.random() < 0.6:
+            lay = ctx["layout"]
+        else:
+            lay = gen.gen_layout(rng, cfg.get("maxchroms", 4), cfg.get("maxbins", 9), kind)
+            ctx["layout"] = lay
+        op = _same_layout_create(rng, cfg, lay, ctx.setdefault("symmetric", rng.random() < 0.7),
+                                 ctx.setdefault("colspec", gen.gen_colspec(rng)), cfg.get("maxpx", 60),
+                                 density=rng.choice([None, "dense", "dense", "sparse", "row", "lastrow"]))
+        for ch in op["chunks"]:
+            for col, dt in op["dtypes"].items():
+                if "int" in dt:
+                    ch[col] = [min(v, 1000) for v in ch[col]]
+        fid = rng.choice(["f0", "f1"])
+        path = "/s%d" % len(ctx["srcs"]) if rng.random() < 0.7 else "/"
+        if path == "/" and fid in fs.files:
+            path = "/s%d" % len(ctx["srcs"])
+        op.update(file=fid, path=path, mode="a")
+        ctx["srcs"].append((fid, path))
+        return op
+    if not have:
+        return None
+    r = rng.random()
+    if r < 0.15 and len(have) >= 2:
+        # merge/coarsen interleaving
+        ins = rng.sample(have, 2)
+        out = [f for f in ("f2", "f3", "f4") if all(f != x[0] for x in ins)]
+        return {"op": "merge", "file": rng.choice(out), "path": "/m%d" % i, "mode": "a",
+                "inputs": [{"file": f, "path": p} for f, p in ins], "mergebuf": rng.choice([2, 7, 10**6]),
+                "columns": None, "agg": None, "fault": None}
+    return gen_coarsen_op(rng, fs, rng.choice(have), i)
+
+
+# ===========================================================================
+# C09: zoomify
+# ===========================================================================
+def gen_c09(rng, fs, i, cfg):
+    from .model import coarsen_model
+
+    ctx = _ctx(cfg)
+    if "stage" not in ctx:
+        ctx["stage"] = 0
+        ctx["variable"] = rng.random() < 0.2
+        ctx["two"] = rng.random() < 0.35 and not ctx["variable"]
+    if ctx["stage"] == 0:
+        ctx["stage"] = 1
+        kind = "variable" if ctx["variable"] else rng.choice(["fixed", "fixed-exact", "fixed", "mixed-one"])
+        lay = gen.gen_layout(rng, cfg.get("maxchroms", 3), cfg.get("maxbins", 12), kind)
+        if ctx["two"]:
+            # the common ancestor has width b0; the two bases are its coarsenings
+            pass
+        op = _same_layout_create(rng, cfg, lay, rng.random() < 0.75, gen.gen_colspec(rng, allow_extra=True),
+                                 cfg.get("maxpx", 80), density=rng.choice(["dense", "sparse", None, "row"]))
+        for ch in op["chunks"]:
+            for col, dt in op["dtypes"].items():
+                if "int" in dt:
+                    ch[col] = [min(v, 1000) for v in ch[col]]
+        op.update(file="f0", path=rng.choice(["/", "/base", "/a/b"]), mode="a")
+        ctx["anc"] = ("f0", op["path"])
+        return op
+    if ctx["stage"] == 1:
+        ctx["stage"] = 2
+        if ctx["two"]:
+            anc = fs.lookup(*ctx["anc"])
+            if anc is None or not isinstance(anc.coll, Coll):
+                return None
+            b, _ = anc.coll.binsize()
+            if b is None:
+                ctx["two"] = False
+            else:
+                m1, m2 = rng.choice([(2, 3), (1, 3), (2, 5), (1, 2), (3, 4)])
+                ctx["bases"] = []
+                ops = []
+                for m, f in ((m1, "f1"), (m2, "f3")):
+                    if m == 1:
+                        ctx["bases"].append(ctx["anc"])
+                        continue
+                    c2, ok = coarsen_model(anc.coll, m, anc.coll.value_columns)
+                    if c2.binsize()[0] is None:
+                        # degenerate: the coarsened table has no inferable width
+                        ctx["two"] = False
+                        ops = []
+                        break
+                    op = coll_to_create(c2)
+                    op.update(file=f, path="/", mode="a")
+                    ops.append(op)
+                    ctx["bases"].append((f, "/"))
+                ctx["pending"] = ops
+        if not ctx["two"]:
+            ctx["bases"] = [ctx["anc"]]
+            ctx["pending"] = []
+    if ctx.get("pending"):
+        return ctx["pending"].pop(0)
+    if ctx["stage"] == 2:
+        ctx["stage"] = 3
+        bases = ctx["bases"]
+        res = []
+        for f, p in bases:
+            n = fs.lookup(f, p)
+            if n is None or not isinstance(n.coll, Coll):
+                return None
+            b, _ = n.coll.binsize()
+            res.append(1 if b is None else b)
+        mults = rng.sample([1, 2, 3, 4, 5, 6, 8, 10, 12], rng.randint(1, 4))
+        targets = sorted({rng.choice(res) * m for m in mults})
+        if rng.random() < 0.5:
+            targets = [t for t in targets if t not in res] or targets
+        if rng.random() < 0.12 and 1 not in res:
+            bad = max(res) * 2 + 1
+            while any(bad % b == 0 for b in res):
+                bad += 1
+            targets.append(bad)
+        rng.shuffle(targets)
+        nnz = max(len(fs.lookup(f, p).coll.pixels) for f, p in bases)
+        cols = None
+        c0 = fs.lookup(*bases[0]).coll
+        extra = [c for c in c0.value_columns if c != "count"]
+        if extra and rng.random() < 0.5 and all(set(extra) <= set(fs.lookup(f, p).coll.value_columns) for f, p in bases):
+            cols = ["count"] + extra
+        return {"op": "zoomify", "file": "f2", "bases": [{"file": f, "path": p} for f, p in bases],
+                "resolutions": targets, "chunksize": rng.choice([1, 2, 3, 7, max(1, nnz // 2), nnz + 1, 10**7]),
+                "nproc": rng.choice([1, 2, 2, 3, 4]), "cli": rng.random() < 0.25 and cols is None,
+                "columns": cols, "as_list": rng.random() < 0.5}
+    return None
+
+
+# ===========================================================================
+# C06: unordered ingestion
+# ===========================================================================
+def gen_c06(rng, fs, i, cfg):
+    ctx = _ctx(cfg)
+    if ctx.get("last") is not None and rng.random() < 0.5:
+        # the same record multiset, partitioned and ordered differently
+        base = ctx["last"]
+        op = {k: (v if k != "chunks" else None) for k, v in base.items()}
+        recs = []
+        cols = list(base["chunks"][0].keys()) if base["chunks"] else ["bin1_id", "bin2_id", "count"]
+        for ch in base["chunks"]:
+            n = len(ch["bin1_id"])
+            recs += [tuple(ch[c][r] for c in cols) for r in range(n)]
+        rng.shuffle(recs)
+        k = rng.randint(1, 6)
+        parts = [[] for _ in range(k)]
+        # a pixel may appear once per chunk only (dupcheck): distribute greedily
+        for rec in recs:
+            order = list(range(k))
+            rng.shuffle(order)
+            for j in order:
+                if not any(x[0] == rec[0] and x[1] == rec[1] for x in parts[j]):
+                    parts[j].append(rec)
+                    break
+            else:
+                parts.append([rec])
+        chunks = []
+        for part in parts:
+            if not op["unordered"]["ensure_sorted"]:
+                part = sorted(part, key=lambda t: (t[0], t[1]))
+            chunks.append({c: [t[j] for t in part] for j, c in enumerate(cols)})
+        op["chunks"] = chunks
+        total = len(recs)
+        op["unordered"] = dict(op["unordered"], mergebuf=rng.choice([1, 2, 3, 5, max(1, total // 2), total + 1, 20_000_000]),
+                               max_merge=rng.choice([1, 2, 3, 4, 200]))
+        op["form"] = rng.choice(["iter", "iterdict"])
+    else:
+        op = gen.gen_unordered(rng, gen.gen_layout(rng, cfg.get("maxchroms", 4), cfg.get("maxbins", 8)),
+                               maxpx=cfg.get("maxpx", 40))
+        ctx["last"] = op
+    op = dict(op)
+    fid = rng.choice(["f0", "f0", "f1"])
+    op.update(file=fid, path=_dest(rng, fs, fid, prefer_new=0.8), mode="w" if rng.random() < 0.1 else "a",
+              slash=rng.random() < 0.7, fault=None)
+    return op
+
+
+# ===========================================================================
+# C17: single-cell files
+# ===========================================================================
+CELL_NAMES = ["cell1", "cell2", "cell10", "a.b", "x-1", "grp/c3", "Z", "9", "cell_0"]
+
+
+def gen_scool(rng, cfg, fault=False):
+    lay = gen.gen_layout(rng, cfg.get("maxchroms", 3), cfg.get("maxbins", 6))
+    n = gen.nbins_of(lay)
+    symm = rng.random() < 0.8
+    colspec = gen.gen_colspec(rng)
+    ncell = rng.randint(1, 5)
+    names = rng.sample(CELL_NAMES, ncell)
+    per_cell = rng.random() < 0.4
+    cells = {}
+    for nm in names:
+        support = gen.gen_support(rng, n, symm, rng.choice([None, "empty", "dense", "diag", "sparse"]), 30)
+        rec = gen.pixels_record(support, gen.gen_values(rng, len(support), colspec))
+        form = rng.choice(["df", "iter", "iterdict"])
+        sizes = [len(support)] if form == "df" else gen.split_chunks(rng, len(support))
+        chunks, lo = [], 0
+        for s in sizes:
+            chunks.append(gen.slice_record(rec, lo, lo + s))
+            lo += s
+        cells[nm] = {"chunks": chunks, "form": form,
+                     "bin_extra": ({"w": [gen.dyadic(rng, 0, 2) for _ in range(n)]}
+                                   if per_cell and rng.random() < 0.7 else None)}
+    op = {"op": "scool", "layout": lay, "symmetric": symm, "dtypes": colspec, "cells": cells,
+          "bins_as_dict": per_cell, "metadata": rng.choice(gen.METADATA), "assembly": rng.choice(gen.ASSEMBLIES),
+          "fault": None}
+    if fault:
+        order = sorted(cells)
+        cell = rng.choice(order)
+        body = {"chunks": cells[cell]["chunks"], "symmetric": symm, "form": "iter"}
+        pl = [p for p in gen.f1_placements(body) if not (p["sub"] == "tril" and n < 2)] + gen.f2_placements(body)
+        f = dict(rng.choice(pl))
+        f["cell"] = cell
+        op["fault"] = f
+    return op
+
+
+def gen_c17(rng, fs, i, cfg):
+    ctx = _ctx(cfg)
+    r = rng.random()
+    if i == 0 and rng.random() < 0.3:
+        # a neighbour that must survive an appended scool
+        op = gen.gen_create(rng, maxpx=20, simple=True)
+        op.update(file="f0", path="/other", mode="a")
+        return op
+    if not ctx.get("made") or r < 0.5:
+        fid = "f0" if not ctx.get("made") else rng.choice(["f0", "f1"])
+        op = gen_scool(rng, cfg, fault=cfg.get("faults", True) and rng.random() < 0.25)
+        op.update(file=fid, mode="a" if (fid in fs.files and not ctx.get("made")) else "w")
+        if op["mode"] == "w" and fid in fs.files and rng.random() < 0.0:
+            pass
+        ctx["made"] = True
+        return op
+    # later append operations on the file; every cell must still read back
+    fid = rng.choice([f for f in sorted(fs.files)] or ["f0"])
+    rr = rng.random()
+    if rr < 0.5:
+        op = gen.gen_create(rng, maxpx=20, simple=True)
+        op.update(file=fid, path=rng.choice(["/extra", "/more/x", "/cells_backup"]), mode="a")
+        if rng.random() < 0.3 and cfg.get("faults", True):
+            _faulted(rng, op)
+        return op
+    have = cooler_paths(fs, fid)
+    if have:
+        return {"op": "cp", "src": {"file": fid, "path": rng.choice(have)},
+                "dst": {"file": rng.choice(["f2", fid]), "path": "/copy%d" % i}}
+    return {"op": "restart"}
+
+
+# ===========================================================================
+# C18: renaming
+# ===========================================================================
+NEW_NAMES = ["chr1", "chromosome_number_one", "I", "x", "1", "c1", "c2", "chrX", "scaffold-000123", "A" * 40]
+
+
+def gen_c18(rng, fs, i, cfg):
+    ctx = _ctx(cfg)
+    have = [(f, p) for f in sorted(fs.files) for p in cooler_paths(fs, f)]
+    if not have or (len(have) < 2 and rng.random() < 0.3):
+        op = gen.gen_create(rng, layout=gen.gen_layout(rng, 4, 5), maxpx=25, simple=rng.random() < 0.6)
+        op.update(file=rng.choice(["f0", "f1"]), path=rng.choice(["/", "/a", "/b/c"]), mode="a")
+        return op
+    r = rng.random()
+    f, p = rng.choice(have)
+    coll = fs.lookup(f, p).coll
+    if r < 0.5:
+        names = coll.chromnames
+        sub = rng.sample(names, rng.randint(1, len(names)))
+        m = {}
+        pool = [n for n in NEW_NAMES if n not in names]
+        rng.shuffle(pool)
+        for n in sub:
+            rr = rng.random()
+            if rr < 0.15 and len(sub) >= 2:
+                m[n] = sub[(sub.index(n) + 1) % len(sub)]  # rotate names among themselves
+            elif rr < 0.25 and ctx.get("orig", {}).get((f, p, n)):
+                m[n] = ctx["orig"][(f, p, n)]              # rename back
+            elif pool:
+                m[n] = pool.pop()
+        if rng.random() < 0.2:
+            m["not-a-chromosome"] = "whatever"
+        for k_, v_ in m.items():
+            ctx.setdefault("orig", {})[(f, p, v_)] = k_
+        return {"op": "rename", "file": f, "path": p, "map": m, "held": rng.random() < 0.6,
+                "slash": rng.random() < 0.7}
+    if r < 0.58:
+        return {"op": "hold", "file": f, "path": p}
+    if r < 0.64:
+        return {"op": "intify", "file": f, "path": p}
+    if r < 0.70:
+        return {"op": "restart"}
+    if r < 0.85:
+        kind = rng.choice(["cp", "ln", "lns"])
+        df = f if kind != "cp" or rng.random() < 0.5 else rng.choice(["f0", "f1", "f2"])
+        op = {"op": "ln" if kind == "lns" else kind, "src": {"file": f, "path": p},
+              "dst": {"file": df, "path": rng.choice(["/k%d" % i, "/n/l%d" % i])}}
+        if kind == "lns":
+            op["soft"] = True
+        return op
+    if r < 0.93:
+        return gen_coarsen_op(rng, fs, (f, p), i, prop="C08", allow_pool=False)
+    same = [(f2, p2) for f2, p2 in have if fs.lookup(f2, p2).coll.chromnames == coll.chromnames]
+    ins = rng.sample(same, min(len(same), 2))
+    out = [x for x in ("f2", "f3", "f4") if all(x != y[0] for y in ins)]
+    return {"op": "merge", "file": rng.choice(out), "path": "/m%d" % i, "mode": "a",
+            "inputs": [{"file": a, "path": b} for a, b in ins], "mergebuf": 5, "columns": None, "agg": None,
+            "fault": None}
